@@ -1,6 +1,8 @@
 package checks
 
 import (
+	"time"
+	"encoding/json"
 	"fmt"
 	"sort"
 	"strings"
@@ -396,12 +398,86 @@ func c03Specs(tier string) []*clustermc.Spec {
 	return out
 }
 
+// c03FaultCfgs: workloads containing a join, explored with C02's fault-schedule engine: every command
+// of the hand-over that follows the join (routing push, length queries, each table move) is a point
+// at which its sender or its receiver may stop.
+func c03FaultCfgs(tier string) []c02Cfg {
+	alpha := []c02Op{{Kind: "join"}, {"put", 0, 1}, {"del", 0, 0}, {"put", 1, 0}}
+	type base struct{ n, table, fill, l int }
+	bases := []base{{2, 128, 3, 2}, {2, 0, 0, 2}}
+	if tier == "thorough" {
+		bases = []base{{2, 128, 3, 3}, {2, 0, 0, 3}, {3, 128, 3, 2}}
+	}
+	var out []c02Cfg
+	for _, b := range bases {
+		var rec func(cur []c02Op, joins int)
+		rec = func(cur []c02Op, joins int) {
+			if len(cur) == b.l {
+				if joins > 0 {
+					out = append(out, c02Cfg{N: b.n, R: 2, Ops: append([]c02Op{}, cur...), StabFaults: true, Table: b.table, Fill: b.fill})
+				}
+				return
+			}
+			for _, o := range alpha {
+				j := joins
+				if o.Kind == "join" {
+					if joins == 1 {
+						continue
+					}
+					j++
+				}
+				rec(append(cur, o), j)
+			}
+		}
+		rec(nil, 0)
+	}
+	return out
+}
+
+func c03Faults(c *core.Ctx) {
+	cfgs := c03FaultCfgs(c.Tier)
+	var params []interface{}
+	for _, cf := range cfgs {
+		params = append(params, c02Job{cf})
+	}
+	runs, points, faulty, done := 0, 0, 0, 0
+	core.RunJobsUntil("c02", params, 30*time.Minute, func(idx int, res json.RawMessage, crash string) {
+		done++
+		jp := params[idx].(c02Job)
+		if crash != "" {
+			c.Violate("C03/faults/worker-crash/"+jp.Cfg.String(), "worker failed: "+crash, jp)
+			return
+		}
+		var r c02Res
+		json.Unmarshal(res, &r)
+		runs += r.Runs
+		points += r.Points
+		faulty += r.Runs - r.ByDev[0]
+		for _, v := range r.Viol {
+			c.Violate("C03/faults/"+v.Key, fmt.Sprintf("%s; faults: %s => %s", jp.Cfg, strings.Join(v.Faults, " ; "), v.What),
+				map[string]interface{}{"cfg": jp.Cfg, "choices": v.Prefix})
+		}
+	}, c.TimeUp)
+	c.Cov["fault_part"] = map[string]interface{}{
+		"what":                     "workloads of Put / Delete and one join (2 members, ReplicaCount 2, 128-byte tables with four keys in one partition and 64 KiB tables); at every command delivered between members during the operations and during the hand-over that follows the join (routing push, length queries, every single table move) the sender or the receiver stops, before or after the command is handled, detected at once or only at the end; also graceful leaves and stops in the gaps; one stop per run; oracle as in C02 (last acknowledged value on every survivor after re-stabilisation, later Put / Delete / Put visible everywhere)",
+		"workloads":                len(cfgs),
+		"runs":                     runs,
+		"runs_with_a_stop":         faulty,
+		"decision_points_answered": points,
+		"complete":                 done == len(params),
+	}
+	if done < len(params) {
+		c.Cov["exhaustive"] = false
+	}
+}
+
 func init() {
 	clustermc.Specs["C03"] = c03Specs
 	core.Register(&core.Check{ID: "C03", Level: "model_checking", Run: func(c *core.Ctx) {
 		c.Cov["rule"] = "BFS over {Put / Delete of 3 keys (two share a partition) through the oldest or the youngest member, join (membership events delivered), routing push, one balancer pass on member i (one table per fragment), compaction, janitor, graceful leave (offered only while every live key has its backup copies)} from 1-2 members up to 3, replica counts 1-2, 64 KiB and 128-byte tables; in every state a Get of every key from every serving member must return the last acknowledged value or not-found, then the replay is stabilised and additionally every live key must be stored exactly once as a primary copy on the partition owner with its backup copies, and deleted keys nowhere; non-trivial = distinct states with more members than initially and at least one live key"
 		clustermc.RunFamily(c, "C03")
+		c03Faults(c)
 		c.Cov["traces_validated_against_impl"] = 0
-		c.Assumef("membership comes from the fake discovery layer; crash of sender / receiver in the middle of a fragment move is not enumerated in this round (faults are C02's subject)")
+		c.Assumef("membership comes from the fake discovery layer; a crash of the sender or the receiver of a fragment move is a stop of that member before or after one of the commands of the hand-over (command granularity), explored with ReplicaCount 2 so that the statement's premise (keys written while ReplicaCount members were present) covers the loss")
 	}})
 }
